@@ -1,4 +1,5 @@
 import BreezyVerif.Lemmas.C08
+import BreezyVerif.Lemmas.C08Seq
 /-
 C08 — theorems.  All repositories, fallbacks, histories and operations are
 universally quantified (no bound on sizes).
@@ -191,14 +192,16 @@ theorem commit_to_stacked_preserves (s s' : Stacked) (k : Rev) (rec : RevRec) (i
 /-- fetch / push into a stacked repository keeps the invariant.  Hypotheses: the stack
 (with its fallback) is ancestry-closed w.r.t. the source or ghosts are asked for; the
 source and the local store hold equal copies of inventories they share; the source can
-supply the inventories of the stack's and the fallback's revisions; `exclusionLocal`. -/
+supply the inventory of every parent of a sent revision that is a revision of the stack
+or its fallback (`srcSuppliesM`, implied by `srcSupplies`); `exclusionLocal`. -/
 theorem fetch_into_stacked_preserves (x : Exclusion) (fg : Bool) (src : Repo) (s s' : Stacked) (rev : Rev)
     (hst : stackable s = true) (hc : fg = true ∨ closed (both s) src = true)
-    (hag : agreeOn src.invs s.st.invs = true) (hsup : srcSupplies src s = true)
+    (hag : agreeOn src.invs s.st.invs = true)
+    (hsup : srcSuppliesM src s (missing fg src (both s) rev) = true)
     (hloc : exclusionLocal x src (missing fg src (both s) rev) = true)
     (h : fetchStacked x fg src s rev = .ok s') : stackable s' = true := by
   obtain ⟨hstream, hfb, hrevs, htexts, hinvs⟩ := fetchStacked_ok h
-  generalize hM : missing fg src (both s) rev = M at hstream hrevs htexts hinvs hloc
+  generalize hM : missing fg src (both s) rev = M at hstream hrevs htexts hinvs hloc hsup
   -- monotonicity
   have hinvmono : ∀ q i, get s.st.invs q = some i → get s'.st.invs q = some i := by
     intro q i hq
@@ -272,23 +275,13 @@ theorem fetch_into_stacked_preserves (x : Exclusion) (fg : Bool) (src : Repo) (s
           (fun p => !hasRev (copy x src s.st M) p && (get (copy x src s.st M).invs p).isNone) :=
         List.mem_filter.mpr ⟨List.mem_flatMap.mpr ⟨m, hm, hp⟩, by simp [hcopyrev, hcopyinv]⟩
       simp [this, hip]
-  have hsupp : ∀ p, presentRev s p = true → ∃ ip, get src.invs p = some ip := by
-    intro p hp
-    unfold srcSupplies at hsup
-    unfold presentRev at hp
-    have hmem : ∃ v, (p, v) ∈ s.st.revs ++ s.fb.revs := by
-      cases hl : hasRev s.st p with
-      | true =>
-        obtain ⟨v, hv⟩ := (hasRev_iff ..).mp hl
-        exact ⟨v, List.mem_append_left _ (get_mem hv)⟩
-      | false =>
-        simp only [hl, Bool.false_or] at hp
-        obtain ⟨v, hv⟩ := (hasRev_iff ..).mp hp
-        exact ⟨v, List.mem_append_right _ (get_mem hv)⟩
-    obtain ⟨v, hv⟩ := hmem
-    have := List.all_eq_true.mp hsup (p, v) hv
+  have hsupp : ∀ m ∈ M, ∀ p ∈ C33.parentsL (graph src) m, presentRev s p = true →
+      ∃ ip, get src.invs p = some ip := by
+    intro m hm p hp hpp
+    unfold srcSuppliesM at hsup
+    have h1 := List.all_eq_true.mp (List.all_eq_true.mp hsup m hm) p hp
     cases hh : get src.invs p with
-    | none => simp [hh] at this
+    | none => simp [hh, hpp] at h1
     | some ip => exact ⟨ip, rfl⟩
   unfold stackable
   rw [List.all_eq_true, hrevs]
@@ -337,7 +330,7 @@ theorem fetch_into_stacked_preserves (x : Exclusion) (fg : Bool) (src : Repo) (s
               rcases hlocalrev p hl with h1 | h1
               · simp [h1]
               · exact absurd h1 hpM
-          obtain ⟨ip, hip⟩ := hsupp p hps
+          obtain ⟨ip, hip⟩ := hsupp m hm p (mem_parentsL_graph.mpr ⟨r, hsr, hp⟩) hps
           rw [hparentinv m hm p (mem_parentsL_graph.mpr ⟨r, hsr, hp⟩) hpM hps ip hip]; rfl
       refine ⟨fun p hp => ?_, fun e he => ?_⟩
       · cases hpp : presentRev s' p with
@@ -395,6 +388,33 @@ theorem fetch_into_stacked_preserves (x : Exclusion) (fg : Bool) (src : Repo) (s
           | none =>
             have : e.key ∈ (streamEntries x src M).map Entry.key := List.mem_map.mpr ⟨e, hse, rfl⟩
             simp [this, hcs]
+
+/-- `srcSupplies` (the source knows every revision of the stack and the fallback) implies
+the hypothesis the theorem needs -/
+theorem srcSupplies_imp (src : Repo) (s : Stacked) (m : List Rev) (h : srcSupplies src s = true) :
+    srcSuppliesM src s m = true := by
+  unfold srcSuppliesM
+  rw [List.all_eq_true]
+  intro k _
+  rw [List.all_eq_true]
+  intro p _
+  cases hpp : presentRev s p with
+  | false => rfl
+  | true =>
+    simp only [Bool.not_true, Bool.false_or]
+    unfold srcSupplies at h
+    unfold presentRev at hpp
+    have hmem : ∃ v, (p, v) ∈ s.st.revs ++ s.fb.revs := by
+      cases hl : hasRev s.st p with
+      | true =>
+        obtain ⟨v, hv⟩ := (hasRev_iff ..).mp hl
+        exact ⟨v, List.mem_append_left _ (get_mem hv)⟩
+      | false =>
+        simp only [hl, Bool.false_or] at hpp
+        obtain ⟨v, hv⟩ := (hasRev_iff ..).mp hpp
+        exact ⟨v, List.mem_append_right _ (get_mem hv)⟩
+    obtain ⟨v, hv⟩ := hmem
+    exact List.all_eq_true.mp h (p, v) hv
 
 /-- a repack changes no lookup … -/
 theorem pack_preserves_lookups (s : Stacked) :
@@ -485,6 +505,352 @@ theorem refusal_iff_stackable (s : Stacked) (k : Rev) (rec : RevRec)
     simp only [hfilled, Bool.true_and]
     simp only [List.all_eq_true, Bool.or_eq_true, decide_eq_true_eq, hent]
 
+/-! ### any history: sequences of operations
+
+`good` = `stackable ∧ topo ∧ invsAgree ∧ invsHaveRevs` is an invariant of every
+sequence of fetches / pushes (from any sources), commits and packs in which every
+operation satisfies its precondition (`stepOk`: `fetchOk` / `commitOk`, decidable,
+evaluated by the driver for every real case) in the state it is applied to.  The
+fallback is any repository without orphan inventories; it never changes. -/
+
+/-- one operation keeps the whole invariant and leaves the fallback alone -/
+theorem step_preserves_good (s : Stacked) (o : Op) (hno : noOrphanInv s.fb = true)
+    (hg : good s = true) (hok : stepOk s o = true) :
+    good (step s o) = true ∧ (step s o).fb = s.fb := by
+  unfold good at hg
+  simp only [Bool.and_eq_true] at hg
+  obtain ⟨⟨⟨hst, htopo⟩, hag⟩, hhr⟩ := hg
+  cases o with
+  | fetch x fg src rev =>
+    simp only [stepOk, fetchOk, Bool.and_eq_true, Bool.or_eq_true] at hok
+    obtain ⟨⟨⟨⟨⟨⟨hc, hagS⟩, hagF⟩, hsup⟩, hloc⟩, htS⟩, hnoS⟩ := hok
+    simp only [step]
+    cases h : fetchStacked x fg src s rev with
+    | error e => exact ⟨by simp [good, hst, htopo, hag, hhr], rfl⟩
+    | ok s' =>
+      have h1 := fetch_into_stacked_preserves x fg src s s' rev hst hc hagS hsup hloc h
+      have h2 := fetch_preserves_topo h htopo htS
+      have h3 := fetch_preserves_invsAgree h hag hagF
+      have h4 := fetch_preserves_invsHaveRevs h hhr hc hnoS
+      exact ⟨by simp [good, h1, h2, h3, h4], (fetchStacked_ok h).2.1⟩
+  | commit k rec inv nt =>
+    simp only [stepOk, commitOk, Bool.and_eq_true, Bool.not_eq_true', Option.isNone_iff_eq_none] at hok
+    obtain ⟨⟨⟨⟨hfr, hfi⟩, hff⟩, hlt⟩, hcov⟩ := hok
+    simp only [step]
+    cases h : commitStacked s k rec inv nt with
+    | error e => exact ⟨by simp [good, hst, htopo, hag, hhr], rfl⟩
+    | ok s' =>
+      have hself : k ∉ rec.parents := by
+        intro hk
+        have := List.all_eq_true.mp hlt k hk
+        simp at this
+      have h1 := commit_to_stacked_preserves s s' k rec inv nt hst ⟨hfr, hfi⟩ hself hcov h
+      have h2 := commit_preserves_topo h htopo hlt
+      have h3 := commit_preserves_invsAgree h hag hff
+      have h4 := commit_preserves_invsHaveRevs h hhr hno
+      exact ⟨by simp [good, h1, h2, h3, h4], (commitStacked_ok h).1⟩
+  | pack =>
+    simp only [step]
+    exact ⟨by simp [good, pack_preserves_stackable s hst, pack_preserves_topo s htopo,
+      pack_preserves_invsAgree s hag, pack_preserves_invsHaveRevs s hhr], rfl⟩
+
+/-- **any history**: every sequence of fetches, pushes, commits and packs whose
+operations satisfy their preconditions keeps the invariant (induction over the
+sequence; no bound on its length, the sources may differ from step to step) -/
+theorem run_preserves_good : ∀ (ops : List Op) (s : Stacked), noOrphanInv s.fb = true →
+    good s = true → runOk s ops = true → good (run s ops) = true ∧ (run s ops).fb = s.fb
+  | [], s, _, hg, _ => ⟨hg, rfl⟩
+  | o :: os, s, hno, hg, hok => by
+    simp only [runOk, Bool.and_eq_true] at hok
+    obtain ⟨h1, h2⟩ := step_preserves_good s o hno hg hok.1
+    obtain ⟨h3, h4⟩ := run_preserves_good os (step s o) (by rw [h2]; exact hno) h1 hok.2
+    exact ⟨h3, by show (run (step s o) os).fb = s.fb; rw [h4, h2]⟩
+
+/-- a freshly created stacked repository satisfies the invariant, whatever its fallback -/
+theorem empty_good (fb : Repo) : good (emptyOn fb) = true := by
+  simp [good, emptyOn, emptyRepo, stackable, topo, invsAgree, agreeOn, invsHaveRevs]
+
+/-- **the property for any history**: starting from an empty repository stacked on a
+complete fallback, after ANY sequence of fetches, pushes, commits and packs (each
+satisfying its precondition when applied) every locally stored revision, and every
+present parent of it, can be read — inventory and every file text — through the
+stacked repository together with its fallback, and the invariant `stackable`
+(parent inventories and differing texts stored locally) holds. -/
+theorem reachable_readable (fb : Repo) (ops : List Op) (hfb : complete fb = true)
+    (hno : noOrphanInv fb = true) (hok : runOk (emptyOn fb) ops = true) (k : Rev) (rec : RevRec)
+    (hk : get (run (emptyOn fb) ops).st.revs k = some rec) :
+    stackable (run (emptyOn fb) ops) = true ∧ readable (both (run (emptyOn fb) ops)) k = true ∧
+      ∀ p ∈ rec.parents, presentRev (run (emptyOn fb) ops) p = true →
+        readable (both (run (emptyOn fb) ops)) p = true := by
+  obtain ⟨hg, hfb'⟩ := run_preserves_good ops (emptyOn fb) hno (empty_good fb) hok
+  unfold good at hg
+  simp only [Bool.and_eq_true] at hg
+  obtain ⟨⟨⟨hst, htopo⟩, hag⟩, _⟩ := hg
+  have hc : complete (run (emptyOn fb) ops).fb = true := by rw [hfb']; exact hfb
+  exact ⟨hst, stackable_readable _ hst hc hag htopo k rec hk⟩
+
+/-- **push never leaves the tip unreconstructable**: after a successful fetch / push
+of `rev` (a revision of the source) into a stacked repository satisfying the
+invariant, `rev` is a revision of the stack or its fallback and its tree can be read
+through them. -/
+theorem push_tip_readable (x : Exclusion) (fg : Bool) (src : Repo) (s s' : Stacked) (rev : Rev)
+    (hfb : complete s.fb = true) (hno : noOrphanInv s.fb = true) (hg : good s = true)
+    (hok : fetchOk x fg src s rev = true) (hrev : hasRev src rev = true)
+    (h : fetchStacked x fg src s rev = .ok s') :
+    presentRev s' rev = true ∧ readable (both s') rev = true := by
+  have hstep : step s (.fetch x fg src rev) = s' := by simp [step, h]
+  obtain ⟨hg', hfb'⟩ := step_preserves_good s (.fetch x fg src rev) hno hg hok
+  rw [hstep] at hg' hfb'
+  unfold good at hg'
+  simp only [Bool.and_eq_true] at hg'
+  obtain ⟨⟨⟨hst, htopo⟩, hag⟩, _⟩ := hg'
+  have hc : complete s'.fb = true := by rw [hfb']; exact hfb
+  simp only [fetchOk, Bool.and_eq_true, Bool.or_eq_true] at hok
+  have hcl := hok.1.1.1.1.1.1
+  have hpres : presentRev s' rev = true := by
+    rcases anc_cases_closed (fg := fg) (tgt := both s) hcl (rev_mem_anc hrev) with h1 | h1
+    · unfold presentRev; rw [fetch_sent_local h h1]; rfl
+    · rw [hasRev_both] at h1; exact fetch_presentRev_mono h h1
+  refine ⟨hpres, ?_⟩
+  unfold presentRev at hpres
+  cases hl : hasRev s'.st rev with
+  | true =>
+    obtain ⟨rec, hrec⟩ := (hasRev_iff ..).mp hl
+    exact (stackable_readable s' hst hc hag htopo rev rec hrec).1
+  | false =>
+    simp only [hl, Bool.false_or] at hpres
+    exact readable_of_fallback hc hag hpres
+
+/-! ### the weak invariant: what holds without `srcSupplies` -/
+
+/-- `stackable` implies the invariant the code maintains by design -/
+theorem stackable_weaken (s : Stacked) (h : stackable s = true) : stackableW s = true := by
+  unfold stackable at h
+  unfold stackableW
+  rw [List.all_eq_true] at h ⊢
+  intro kv hkv
+  exact stackableRev_imp_W (h kv hkv)
+
+/-- the weak invariant is all that reading needs: every locally stored revision and
+every present parent of it can be read through the stack and its fallback -/
+theorem stackableW_readable (s : Stacked) (hst : stackableW s = true) (hfb : complete s.fb = true)
+    (hag : invsAgree s = true) (htopo : topo s.st = true) (k : Rev) (rec : RevRec)
+    (hk : get s.st.revs k = some rec) :
+    readable (both s) k = true ∧ ∀ p ∈ rec.parents, presentRev s p = true → readable (both s) p = true := by
+  have main : ∀ n, ∀ k rec, k = n → get s.st.revs k = some rec → readable (both s) k = true := by
+    intro n
+    induction n using Nat.strongRecOn with
+    | _ n ih =>
+      intro k rec hkn hk
+      obtain ⟨inv, hinv, htexts⟩ := stackableW_rev hst hk
+      rw [readable_iff]
+      refine ⟨inv, by rw [both_invs_get, hinv], fun e he => ?_⟩
+      rcases htexts e he with hpe | ⟨c, hc⟩
+      · obtain ⟨p, hp, hpres, ip, hip, hep⟩ := mem_parentEntries hpe
+        have hlt : p < n := hkn ▸ topo_lt htopo hk hp
+        have hr : readable (both s) p = true := by
+          unfold presentRev at hpres
+          cases hl : hasRev s.st p with
+          | true =>
+            obtain ⟨prec, hprec⟩ := (hasRev_iff ..).mp hl
+            exact ih p hlt p prec rfl hprec
+          | false =>
+            simp only [hl, Bool.false_or] at hpres
+            exact readable_of_fallback hfb hag hpres
+        obtain ⟨ip', hip', hall⟩ := readable_iff.mp hr
+        rw [both_invs_get, hip] at hip'
+        cases hip'
+        exact hall e hep
+      · exact both_texts_isSome s e.key (Or.inl (by simp [hc]))
+  refine ⟨main k k rec rfl hk, fun p hp hpres => ?_⟩
+  unfold presentRev at hpres
+  cases hl : hasRev s.st p with
+  | true =>
+    obtain ⟨prec, hprec⟩ := (hasRev_iff ..).mp hl
+    exact main p p prec rfl hprec
+  | false =>
+    simp only [hl, Bool.false_or] at hpres
+    exact readable_of_fallback hfb hag hpres
+
+/-- fetch / push into a stacked repository keeps the weak invariant WITHOUT any
+assumption about which parent inventories the source can supply (`srcSupplies`
+dropped): an entry the stream's filter drops is shared with a parent whose
+inventory the source holds, and that inventory is either already local, sent, or
+filled in by `get_missing_parent_inventories`. -/
+theorem fetch_into_stacked_preservesW (x : Exclusion) (fg : Bool) (src : Repo) (s s' : Stacked) (rev : Rev)
+    (hst : stackableW s = true) (hc : fg = true ∨ closed (both s) src = true)
+    (hag : agreeOn src.invs s.st.invs = true)
+    (hloc : exclusionLocal x src (missing fg src (both s) rev) = true)
+    (h : fetchStacked x fg src s rev = .ok s') : stackableW s' = true := by
+  obtain ⟨hstream, hfb, hrevs, htexts, hinvs⟩ := fetchStacked_ok h
+  generalize hM : missing fg src (both s) rev = M at hstream hrevs htexts hinvs hloc
+  have hinvmono : ∀ q i, get s.st.invs q = some i → get s'.st.invs q = some i := by
+    intro q i hq
+    rw [hinvs]; apply get_append_some; rw [copy_invs_get, hq]
+  have htxtmono : ∀ q c, get s.st.texts q = some c → get s'.st.texts q = some c := by
+    intro q c hq
+    rw [htexts, copy_texts_get, hq]
+  have hrevget : ∀ q, get s'.st.revs q = match get s.st.revs q with
+      | some v => some v
+      | none => if q ∈ M then get src.revs q else none := by
+    intro q; rw [hrevs]; exact copy_revs_get ..
+  have hpres : ∀ p, presentRev s p = true → presentRev s' p = true :=
+    fun p hp => fetch_presentRev_mono h hp
+  have hsentinv : ∀ m ∈ M, ∃ i, get src.invs m = some i ∧ get s'.st.invs m = some i := by
+    intro m hm
+    obtain ⟨i, hi⟩ := streamable_inv hstream hm
+    refine ⟨i, hi, ?_⟩
+    cases hl : get s.st.invs m with
+    | some il =>
+      have : i = il := agreeOn_eq hag hl hi
+      subst this; exact hinvmono m i hl
+    | none =>
+      rw [hinvs]; apply get_append_some
+      rw [copy_invs_get, hl]; simp [hm, hi]
+  have hparentinv : ∀ m ∈ M, ∀ p ∈ C33.parentsL (graph src) m, p ∉ M → presentRev s p = true →
+      ∀ ip, get src.invs p = some ip → get s'.st.invs p = some ip := by
+    intro m hm p hp hpM hpp ip hip
+    cases hl : get s.st.invs p with
+    | some il =>
+      have : ip = il := agreeOn_eq hag hl hip
+      subst this; exact hinvmono p ip hl
+    | none =>
+      have hnl : hasRev s.st p = false := by
+        cases hh : hasRev s.st p with
+        | false => rfl
+        | true =>
+          obtain ⟨prec, hprec⟩ := (hasRev_iff ..).mp hh
+          obtain ⟨i, hi, _⟩ := stackableW_rev hst hprec
+          rw [hl] at hi; cases hi
+      have hcopyinv : get (copy x src s.st M).invs p = none := by
+        rw [copy_invs_get, hl]; simp [hpM]
+      have hcopyrev : hasRev (copy x src s.st M) p = false := by
+        unfold hasRev at hnl ⊢
+        rw [copy_revs_get]
+        cases hh : get s.st.revs p with
+        | some v => simp [hh] at hnl
+        | none => simp [hpM]
+      rw [hinvs, get_append_none hcopyinv, get_parentInvFill]
+      have : p ∈ (M.flatMap (C33.parentsL (graph src))).filter
+          (fun p => !hasRev (copy x src s.st M) p && (get (copy x src s.st M).invs p).isNone) :=
+        List.mem_filter.mpr ⟨List.mem_flatMap.mpr ⟨m, hm, hp⟩, by simp [hcopyrev, hcopyinv]⟩
+      simp [this, hip]
+  unfold stackableW
+  rw [List.all_eq_true, hrevs]
+  rintro ⟨k, rec⟩ hmem
+  simp only [copy, List.mem_append, List.mem_filterMap] at hmem
+  rcases hmem with hold | ⟨m, hm, hmrec⟩
+  · have hold' : stackableRevW s k rec = true := by
+      unfold stackableW at hst
+      exact List.all_eq_true.mp hst (k, rec) hold
+    exact stackableRevW_mono hinvmono htxtmono hpres hold'
+  · cases hsr : get src.revs m with
+    | none => simp [hsr] at hmrec
+    | some r =>
+      simp only [hsr, Option.map_some, Option.some.injEq, Prod.mk.injEq] at hmrec
+      obtain ⟨hmk, hrr⟩ := hmrec
+      subst hmk hrr
+      obtain ⟨i, hi, hil⟩ := hsentinv m hm
+      have hma : m ∈ anc src rev := by rw [← hM] at hm; exact missing_sub_anc hm
+      unfold stackableRevW
+      simp only [hil, List.all_eq_true, Bool.or_eq_true, decide_eq_true_eq]
+      intro e he
+      by_cases hex : e ∈ excluded x src M
+      · left
+        unfold exclusionLocal at hloc
+        have h1 := List.all_eq_true.mp hloc m hm
+        have hem : e ∈ invOrEmpty src m := by unfold invOrEmpty; rw [hi]; exact he
+        have h2 := List.all_eq_true.mp h1 e hem
+        simp only [Bool.or_eq_true, Bool.not_eq_true', decide_eq_false_iff_not, List.any_eq_true,
+          Bool.and_eq_true, decide_eq_true_eq] at h2
+        rcases h2 with h2 | ⟨p, hp, hpsrc, hep⟩
+        · exact absurd hex h2
+        · obtain ⟨ip, hip, heip⟩ := mem_invOrEmpty hep
+          obtain ⟨r', hr', hpr⟩ := mem_parentsL_graph.mp hp
+          rw [hsr] at hr'; cases hr'
+          unfold parentEntries
+          by_cases hpM : p ∈ M
+          · obtain ⟨ip', hip', hipl⟩ := hsentinv p hpM
+            rw [hip] at hip'; cases hip'
+            have hpp : presentRev s' p = true := by
+              unfold presentRev
+              rw [fetch_sent_local h (hM ▸ hpM)]; rfl
+            refine List.mem_flatMap.mpr ⟨p, List.mem_filter.mpr ⟨hpr, hpp⟩, ?_⟩
+            unfold invOrEmpty
+            rw [hipl]
+            exact heip
+          · have hpa : p ∈ anc src rev := parent_mem_anc hma hsr hpr hpsrc
+            have hps : presentRev s p = true := by
+              rcases anc_cases_closed (fg := fg) (tgt := both s) hc hpa with h3 | h3
+              · rw [hM] at h3; exact absurd h3 hpM
+              · rw [hasRev_both] at h3; exact h3
+            refine List.mem_flatMap.mpr ⟨p, List.mem_filter.mpr ⟨hpr, hpres p hps⟩, ?_⟩
+            unfold invOrEmpty
+            rw [hparentinv m hm p hp hpM hps ip hip]
+            exact heip
+      · right
+        have hse : e ∈ streamEntries x src M := by
+          unfold streamEntries
+          simp only [List.mem_filter, List.mem_flatMap, Bool.not_eq_true', decide_eq_false_iff_not]
+          refine ⟨⟨m, hm, ?_⟩, hex⟩
+          unfold invOrEmpty; rw [hi]; exact he
+        obtain ⟨c, hcs⟩ := streamable_text hstream hse
+        rw [htexts, copy_texts_get]
+        cases ht : get s.st.texts e.key with
+        | some c0 => rfl
+        | none =>
+          have : e.key ∈ (streamEntries x src M).map Entry.key := List.mem_map.mpr ⟨e, hse, rfl⟩
+          simp [this, hcs]
+
+/-- a source in which revision 1 — a revision of the fallback — is a ghost: it holds only
+revision 2 (parent 1), which rewrites file 1 -/
+def gSrc : Repo :=
+  { revs := [(2, ⟨[1], 20⟩)], invs := [(2, [⟨1, 1, 2, 200⟩])], texts := [((1, 2), 200)] }
+
+def gStack : Stacked :=
+  emptyOn { revs := [(1, ⟨[], 10⟩)], invs := [(1, [⟨1, 1, 1, 100⟩])], texts := [((1, 1), 100)] }
+
+/-- `srcSuppliesM` cannot be dropped from `fetch_into_stacked_preserves`: a fetch from a
+source that does not hold a parent the fallback holds succeeds (the real sink accepts
+it too — `get_missing_parent_inventories(check_for_missing_texts=True)` only insists
+on parent inventories when texts are missing; reproduced by the harness), every other
+hypothesis holds, the weak invariant holds and the new revision can be read, but the
+inventory of the present parent is NOT stored locally: `stackable` is false. -/
+theorem srcSupplies_needed_witness :
+    (match fetchStacked .revisionPresent false gSrc gStack 2 with
+      | .ok s' => !stackable s' && stackableW s' && readable (both s') 2 && hasRev s'.st 2
+      | .error _ => false) = true ∧
+    stackable gStack = true ∧ closed (both gStack) gSrc = true ∧ agreeOn gSrc.invs gStack.st.invs = true ∧
+    exclusionLocal .revisionPresent gSrc (missing false gSrc (both gStack) 2) = true ∧
+    srcSuppliesM gSrc gStack (missing false gSrc (both gStack) 2) = false := by decide +kernel
+
+/-- two branches in the fallback: 1 ← 2 (2 rewrites file 1) and 1 ← 3 (3 adds file 2);
+the write group adds 5 (parent 3) and 6 (parents 2 and the ghost 4) whose inventory
+still carries file 1 as revision 1 left it; the inventories of 3 and 2 are filled in -/
+def mStack : Stacked :=
+  { st := { revs := [(5, ⟨[3], 50⟩), (6, ⟨[2, 4], 60⟩)],
+            invs := [(5, [⟨1, 1, 1, 100⟩, ⟨2, 2, 5, 500⟩]), (6, [⟨1, 1, 1, 100⟩]),
+                     (3, [⟨1, 1, 1, 100⟩, ⟨2, 2, 3, 300⟩]), (2, [⟨1, 1, 2, 200⟩])],
+            texts := [((2, 5), 500)] }
+    fb := { revs := [(1, ⟨[], 10⟩), (2, ⟨[1], 20⟩), (3, ⟨[1], 30⟩)],
+            invs := [(1, [⟨1, 1, 1, 100⟩]), (2, [⟨1, 1, 2, 200⟩]), (3, [⟨1, 1, 1, 100⟩, ⟨2, 2, 3, 300⟩])],
+            texts := [((1, 1), 100), ((1, 2), 200), ((2, 3), 300)] } }
+
+/-- the multi-revision converse of `refusal_iff_stackable` is FALSE: one set of
+parent-only inventories is computed for the whole write group, so revision 6's entry
+for file 1 is excused by the inventory of 3 — a parent of revision 5, not of 6.
+`_check_new_inventories` accepts, every present parent's inventory is stored locally
+(`hfilled` of `refusal_iff_stackable` holds for both revisions), yet revision 6
+violates the stacking invariant (the text (1, 1) is not stored locally); the tree of
+6 can still be read through the fallback. -/
+theorem refusal_multi_witness :
+    checkNew mStack.st [5, 6] = true ∧ stackable mStack = false ∧ stackableW mStack = false ∧
+    invsHaveRevs mStack = true ∧ topo mStack.st = true ∧
+    mStack.st.revs.all (fun kv => kv.2.parents.all fun p =>
+      !presentRev mStack p || (get mStack.st.invs p).isSome) = true ∧
+    stackableRev mStack 5 ⟨[3], 50⟩ = true ∧ stackableRev mStack 6 ⟨[2, 4], 60⟩ = false ∧
+    readable (both mStack) 6 = true := by decide +kernel
+
 /-- the stack used by the witness: revision 2 (parent 1) stored locally with its text, revision 1 in
 the fallback, but the inventory of 1 NOT stored locally -/
 def wStack : Stacked :=
@@ -534,7 +900,7 @@ def eSrc : Repo :=
 def eEmpty : Stacked := { eStack with st := ⟨[], [], []⟩ }
 
 example : stackable eEmpty = true ∧ closed (both eEmpty) eSrc = true ∧ agreeOn eSrc.invs eEmpty.st.invs = true ∧
-    srcSupplies eSrc eEmpty = true ∧ exclusionLocal .revisionPresent eSrc (missing false eSrc (both eEmpty) 5) = true ∧
+    srcSuppliesM eSrc eEmpty (missing false eSrc (both eEmpty) 5) = true ∧ exclusionLocal .revisionPresent eSrc (missing false eSrc (both eEmpty) 5) = true ∧
     missing false eSrc (both eEmpty) 5 = [5, 3] ∧
     (match fetchStacked .revisionPresent false eSrc eEmpty 5 with
       | .ok s' => stackable s' && (get s'.st.invs 2).isSome && (get s'.st.texts (2, 1)).isNone &&
@@ -545,5 +911,22 @@ example : stackable eEmpty = true ∧ closed (both eEmpty) eSrc = true ∧ agree
 example : (match commitStacked eStack 4 ⟨[3, 9], 40⟩ [] [] with
       | .ok _ => false
       | .error _ => true) = true := by decide +kernel
+
+/-- `run_preserves_good` / `reachable_readable`: a fetch of 5 (merging the ghost 4) into the empty
+stack, a commit of 6 merging fallback revision 1, and a pack — every precondition holds -/
+def eOps : List Op :=
+  [.fetch .revisionPresent false eSrc 5,
+   .commit 6 ⟨[5, 1], 60⟩ [⟨1, 1, 6, 600⟩, ⟨2, 2, 5, 510⟩] [((1, 6), 600)],
+   .pack]
+
+example : complete eStack.fb = true ∧ noOrphanInv eStack.fb = true ∧ runOk (emptyOn eStack.fb) eOps = true ∧
+    ((run (emptyOn eStack.fb) eOps).st.revs.map (·.1)) = [5, 3, 6] ∧
+    ((run (emptyOn eStack.fb) eOps).st.invs.map (·.1)) = [5, 3, 2, 6, 1] ∧
+    readable (both (run (emptyOn eStack.fb) eOps)) 6 = true ∧
+    readable (run (emptyOn eStack.fb) eOps).st 3 = false := by decide +kernel
+
+/-- `push_tip_readable` -/
+example : good eEmpty = true ∧ fetchOk .revisionPresent false eSrc eEmpty 5 = true ∧ hasRev eSrc 5 = true := by
+  decide +kernel
 
 end BreezyVerif.C08
